@@ -115,12 +115,20 @@ def consistent(fs: frozenset) -> bool:
     return True
 
 
-def trees(k: int):
+CORE_FEATURES = FEATURES[:-4]     # without the name-prefix/nesting extras
+
+
+def trees(k: int, k_core: int = 0):
+    """All consistent subsets of <= k features, plus those of size
+    k+1..k_core drawn from CORE_FEATURES only."""
     out = []
     for n in range(k + 1):
         for combo in itertools.combinations(FEATURES, n):
-            fs = frozenset(combo)
-            if consistent(fs):
+            if consistent(frozenset(combo)):
+                out.append(tuple(combo))
+    for n in range(k + 1, k_core + 1):
+        for combo in itertools.combinations(CORE_FEATURES, n):
+            if consistent(frozenset(combo)):
                 out.append(tuple(combo))
     return out
 
@@ -570,6 +578,16 @@ def judge(box, feats, pattern, std, before, after, err) -> dict:
         for rel, t in std.items():
             if rel and (p == t or p.startswith(t + '/')):
                 via = f'via-std-symlink-{rel}'
+        # root-cause hint: the survivor (or a directory on its way) has a
+        # sibling whose name is a proper string prefix of its own name
+        q = p
+        while q.startswith(box.root + '/'):
+            d, n = os.path.split(q)
+            if any(os.path.dirname(o) == d and o != q
+                   and n.startswith(os.path.basename(o)) for o in before):
+                via += ':sibling-name-is-prefix'
+                break
+            q = d
         bad.append((
             f'matched-path-survives:{k}:{via}:{mode}',
             f'{os.path.relpath(p, box.root)} is matched but still there'))
@@ -622,9 +640,10 @@ def _work(job):
 
 
 def run(ctx: Ctx) -> Result:
-    k = ctx.pick(3, 5)
+    k = ctx.pick(3, 4)
+    k_core = ctx.pick(0, 5)
     patterns = ctx.pick(PATTERNS_QUICK, PATTERNS_THOROUGH)
-    tr = trees(k)
+    tr = trees(k, k_core)
     base = ctx.scratch / 'c38'
     base.mkdir(parents=True, exist_ok=True)
     from cylc.flow.cfgspec.glbl_cfg import glbl_cfg
@@ -657,7 +676,9 @@ def run(ctx: Ctx) -> Result:
         'rule': (
             'one evaluation = one (tree, --rm pattern or none) built on disk '
             'and cleaned through init_clean; trees = all consistent subsets '
-            f'of <= {k} of the {len(FEATURES)} catalogue features on top of '
+            f'of <= {k} of the {len(FEATURES)} catalogue features'
+            + (f' (and of <= {k_core} of the first {len(CORE_FEATURES)})'
+               if k_core > k else '') + ' on top of '
             'a base run dir; non-trivial = cylc accepted the input and at '
             'least one path was deleted'),
         'trees': len(tr),
